@@ -174,9 +174,10 @@ func ReqDecode(in string, w *ev.Writer, o Opts) error {
 	byFn := map[string][]ev.M{}
 	var fnOrder []string
 	cur := ""
+	curVec := 0
 	call := func(data []byte) error {
 		tag, name, val, derr := liteclient.LiteapiRequestDecoder(append([]byte{}, data...))
-		m := ev.M{"k": "ReqDecode", "hex": hex.EncodeToString(data), "tag": strconv.FormatUint(uint64(tag), 10), "err": ev.ErrClass(derr), "name": ""}
+		m := ev.M{"k": "ReqDecode", "hex": hex.EncodeToString(data), "tag": strconv.FormatUint(uint64(tag), 10), "err": ev.ErrClass(derr), "name": "", "vec": curVec}
 		if name != nil {
 			m["name"] = *name
 		}
@@ -198,6 +199,7 @@ func ReqDecode(in string, w *ev.Writer, o Opts) error {
 			continue
 		}
 		cur = v.Ty
+		curVec = v.Vec
 		data, _ := hex.DecodeString(v.Hex)
 		if err := call(data); err != nil {
 			return err
